@@ -6,7 +6,9 @@ vm_compute against the real static.File rendering a real temporary file into a D
 Oracle (independent of the model): RFC 9110 section 14.1.2 computed directly in Python from the header text,
 with an independent multipart/byteranges splitter.
 
-case = {"size": int, "head": bool, "range": hex | None}; the file's byte i is (i*7+3) % 251.
+case = {"size": int, "head": bool, "range": hex | None}; the file's byte i is (i*7+3) % 251;
+  or  {"seq": [{"size": int, "v": int, "head": bool, "range": hex | None}, ...]}: several requests against ONE static.File
+      object, the file rewritten (byte i = (i*7+3+v) % 251) before each.
 """
 from __future__ import annotations
 
@@ -23,8 +25,12 @@ _DIR = None
 _FILES: dict[int, str] = {}
 
 
-def content(n: int) -> bytes:
-    return bytes((i * 7 + 3) % 251 for i in range(n))
+def content(n: int, v: int = 0) -> bytes:
+    return bytes((i * 7 + 3 + v) % 251 for i in range(n))
+
+
+def steps_of(case):
+    return case["seq"] if "seq" in case else [dict(case, v=0)]
 
 
 def _path(n: int) -> str:
@@ -46,7 +52,7 @@ class ProducerStuck(Exception):
     pass
 
 
-def _serve(case):
+def _serve(case, f=None):
     """-> (code, content-range|None, content-length|None, content-type|None, body) with the boundary rewritten to B"""
     from twisted.web import static
     from twisted.web.test.requesthelper import DummyRequest
@@ -65,7 +71,8 @@ def _serve(case):
                 if n > limit:
                     raise ProducerStuck()
 
-    f = static.File(_path(case["size"]))
+    if f is None:
+        f = static.File(_path(case["size"]))
     req = Req([b""])
     req.method = b"HEAD" if case["head"] else b"GET"
     if case["range"] is not None:
@@ -93,14 +100,14 @@ def _serve(case):
 _HANGS = [0]
 
 
-def impl(case) -> str:
+def _impl_one(case, f=None) -> str:
     # a producer that spins inside resumeProducing must become a failure quickly: own limit (3 s; once three
     # cases have hung, 0.25 s) instead of common's 10 s per case
     from harness.common import CaseTimeout, time_limit
 
     try:
         with time_limit(3.0 if _HANGS[0] < 3 else 0.25):
-            code, cr, cl, ct, body = _serve(case)
+            code, cr, cl, ct, body = _serve(case, f)
     except CaseTimeout:
         _HANGS[0] += 1
         return "HANG"
@@ -110,8 +117,33 @@ def impl(case) -> str:
     return f"{code}|{h(cr)}|{h(cl)}|{h(ct)}|{digest(body)}#{body.hex() if len(body) <= 3000 else ''}"
 
 
+_SEQ = [0]
+
+
+def impl(case) -> str:
+    if "seq" not in case:
+        return _impl_one(case)
+    from twisted.web import static
+
+    # ONE File object for the whole history; the file is rewritten before every request
+    _path(0)
+    _SEQ[0] += 1
+    d = os.path.join(_DIR, f"seq{_SEQ[0]}")
+    os.mkdir(d)
+    path = os.path.join(d, "data.txt")
+    f, out = None, []
+    for st in case["seq"]:
+        with open(path, "wb") as fh:
+            fh.write(content(st["size"], st["v"]))
+        if f is None:
+            f = static.File(path)
+        out.append(_impl_one(st, f))
+    shutil.rmtree(d, True)
+    return ";;".join(out)
+
+
 def model_equal(case, impl_obs, model_obs):
-    return impl_obs.split("#")[0] == model_obs
+    return ";;".join(o.split("#")[0] for o in impl_obs.split(";;")) == model_obs
 
 
 # --------------------------------------------------------------------------------------------------
@@ -178,7 +210,25 @@ def _classify(case, hdr, default):
 
 
 def oracle(case, obs):
-    size, data = case["size"], content(case["size"])
+    if "seq" not in case:
+        return _oracle_one(case, obs)
+    parts = obs.split(";;")
+    if len(parts) != len(case["seq"]):
+        return Failure(case, "malformed observation", "log")
+    for k, (st, o) in enumerate(zip(case["seq"], parts)):
+        if o == "HANG":
+            return Failure(case, f"request {k} (file now {st['size']} bytes): the response never finished", "stale-file-after-rewrite" if k else "hang")
+        f = _oracle_one(st, o)
+        if f is not None:
+            # the same File object answered earlier requests when the file had another length / other bytes
+            changed = k > 0 and any((p["size"], p["v"]) != (st["size"], st["v"]) for p in case["seq"][:k])
+            return Failure(case, f"request {k} on the same File object (file rewritten to {st['size']} bytes, variant {st['v']}): "
+                                 + f.reason, "stale-file-after-rewrite" if changed else f.tag)
+    return None
+
+
+def _oracle_one(case, obs):
+    size, data = case["size"], content(case["size"], case.get("v", 0))
     hdr = None if case["range"] is None else bytes.fromhex(case["range"])
     if obs.startswith("EXC:"):
         return Failure(case, f"internal error {obs} for Range {hdr!r} on a {size}-byte file", _classify(case, hdr, "internal-error"))
@@ -190,7 +240,7 @@ def oracle(case, obs):
     blen = int(dg.split("~")[0])
     body = bytes.fromhex(bodyhex) if blen <= 3000 else None
     if body is None:
-        body = _serve(case)[4]          # large bodies are not carried in the observation string
+        body = _serve(dict(case, v=0))[4]          # large bodies (single-request cases only) are not carried in the string
     fail = lambda kind, msg: Failure(case, f"Range {hdr!r}, size {size}: {msg}", _classify(case, hdr, kind))
     if case["head"]:
         if code != 200 or body or cl != str(size).encode() or cr is not None:
@@ -239,11 +289,16 @@ def oracle(case, obs):
 
 
 def to_coq(case):
-    if case["size"] > 3000:
+    sts = steps_of(case)
+    if any(st["size"] > 3000 for st in sts):
         return None
-    r = "(@None (list N))" if case["range"] is None else \
-        ("(Some (@nil N))" if case["range"] == "" else f'(Some (hx "{case["range"]}"))')
-    return f"({case['size']}%nat, {coq_bool(case['head'])}, {r})"
+
+    def one(st):
+        r = "(@None (list N))" if st["range"] is None else \
+            ("(Some (@nil N))" if st["range"] == "" else f'(Some (hx "{st["range"]}"))')
+        return f"({st['size']}%nat, {st['v']}%N, {coq_bool(st['head'])}, {r})"
+
+    return "[" + "; ".join(one(st) for st in sts) + "]"
 
 
 def _num(rng, size):
@@ -313,6 +368,19 @@ def gen(rng, tier):
             pos = rng.randrange(len(hdr) + 1)
             hdr = hdr[:pos] + bytes([rng.choice(b"+-_ ,=x\t\x0c0")]) + hdr[pos:]
         cases.append(mk(size, hdr, rng.random() < 0.05))
+    # histories: several requests against the same File object with the file rewritten in between
+    seq_ranges = [None, b"bytes=-3", b"bytes=-1000", b"bytes=0-", b"bytes=2-", b"bytes=0-0", b"bytes=5-9", b"bytes=0-1,4-", b"bytes=-2,0-0",
+                  b"bytes=20-", b"bytes=10-30", b"bytes=7-7,9-"]
+    for _ in range(250 if tier == "quick" else 4000):
+        k = rng.choice([2, 2, 3, 4])
+        base = rng.choice([0, 1, 5, 10, 11, 40, 300])
+        seq = []
+        for j in range(k):
+            r = rng.random()
+            size = base if (j == 0 or r < 0.25) else rng.choice([0, 1, max(base - 1, 0), base + 1, base // 2, base * 2, base + 7, rng.randrange(0, 60)])
+            seq.append({"size": size, "v": rng.choice([0, 0, 1, 5]), "head": rng.random() < 0.08,
+                        "range": (lambda h: None if h is None else h.hex())(rng.choice(seq_ranges))})
+        cases.append({"seq": seq})
     # multi-range sets whose first part(s) plus separators end within +-200 bytes of the producers' 64 KiB buffer
     # (MultipleRangeStaticProducer fills one buffer per resumeProducing; oracle only: the model stops at 3000 bytes)
     buf = 65536
@@ -348,10 +416,22 @@ def corpus():
         mk(64, b"bytes=0-9,20-29,60-70,64-,70-80"),
         mk(65537, b"bytes=1-65536"), mk(65537, b"bytes=0-0,-65537,65536-"),
         mk(65536, b"bytes=0-65431,0-9"),     # a part boundary pushes the multi-range producer's buffer count past 64 KiB
+        # the same File object serves the file before and after it was rewritten (grown, shrunk, same size other bytes)
+        {"seq": [{"size": 10, "v": 0, "head": False, "range": b"bytes=-3".hex()}, {"size": 20, "v": 0, "head": False, "range": b"bytes=-3".hex()},
+                 {"size": 4, "v": 1, "head": False, "range": b"bytes=0-".hex()}, {"size": 4, "v": 2, "head": False, "range": None}]},
+        {"seq": [{"size": 30, "v": 0, "head": False, "range": None}, {"size": 5, "v": 0, "head": False, "range": b"bytes=2-".hex()},
+                 {"size": 50, "v": 0, "head": False, "range": b"bytes=40-45,-2".hex()}]},
     ]
 
 
 def shrink(case):
+    if "seq" in case:
+        if _HANGS[0] > 60:
+            return
+        for i in range(len(case["seq"])):
+            if len(case["seq"]) > 1:
+                yield {"seq": case["seq"][:i] + case["seq"][i + 1:]}
+        return
     if case["range"] is None or _HANGS[0] > 60:      # a run full of hangs has its failing inputs; do not spend minutes minimising
         return
     h = bytes.fromhex(case["range"])
@@ -367,6 +447,8 @@ def shrink(case):
 
 
 def _hist(case, obs):
+    if "seq" in case:
+        return f"history of {len(case['seq'])} requests on one File object"
     if case["range"] is None:
         return "no-range"
     rs = rfc_ranges(bytes.fromhex(case["range"]))
@@ -375,6 +457,8 @@ def _hist(case, obs):
 
 
 def describe(case):
+    if "seq" in case:
+        return {"seq": [describe(st) | {"v": st["v"]} for st in case["seq"]]}
     return {"size": case["size"], "head": case["head"],
             "range": None if case["range"] is None else bytes.fromhex(case["range"]).decode("latin-1")}
 
@@ -383,8 +467,8 @@ SPEC = Spec(
     pid="C25",
     gen=gen, impl=impl, oracle=oracle, corpus=corpus, shrink=shrink, describe=describe, histogram=_hist,
     coq_header="From TwLib Require Import HttpRespBytes.\nFrom C25 Require Import Model Run.",
-    coq_fn="run_show", to_coq=to_coq, model_equal=model_equal, case_timeout=10.0,
-    nontrivial=lambda c, o: c["range"] is not None and not o.startswith("200"),
+    coq_fn="run_seq", to_coq=to_coq, model_equal=model_equal, case_timeout=10.0,
+    nontrivial=lambda c, o: ("seq" in c) or (c["range"] is not None and not o.startswith("200")),
     rule="every single range-spec (first,last in 0..size+2, open, suffix 0..size+3) and a third (quick) / all (thorough) of "
          "their pairs with 5 second specs on files of 0..5 (thorough 0..8) bytes; 44 malformed / lenient header forms x 3 sizes; "
          "500 (quick) / 10000 (thorough) random sets of 1-6 specs with positions at 0, size-1, size, size+1, 2*size, 10^20, optional "
